@@ -10,7 +10,8 @@ ID = "C10"
 LEVEL = "proof"
 LEAN_MODULES = ["Sonic.Props.C10", "Sonic.Props.C11"]
 REQUIRED_THEOREMS = ["Sonic.Props.C10." + n for n in ["C10_agree", "C10_success_iff", "C10_skipString_seq", "C10_skipContainer_seq",
-                                                         "C10_skipOne_value", "C10_skipSpaceSafe_exact", "C10_getNextToken_exact"]]
+                                                         "C10_skipOne_value", "C10_skipSpaceSafe_exact", "C10_getNextToken_exact", "C10_parse_on_demand",
+                                                         "C10_parse_on_demand_width"]]
 CONFIGS = [("avx2", "prod"), ("sse", "prod"), ("avx2", "san"), ("sse", "san")]
 CONFIGS_THOROUGH = CONFIGS + [("dyn", "prod")]
 RULE = ("valid JSON texts from the type-directed generator (keys whose raw spelling differs from the decoded one, strings containing "
@@ -140,6 +141,9 @@ def judge(case, mo, io, cfg):
                 return ("violation", f"ParseOnDemand result differs from Parse+pointer: impl={io[0][:160]} spec={spec[:160]} for `{case['lines'][0][:200]}`")
         elif spec == "unresolved" and io[0].startswith("ok"):
             return ("violation", f"ParseOnDemand succeeded although the path does not resolve: {io[0][:160]} for `{case['lines'][0][:200]}`")
+        head = mo[0].split(" spec=", 1)[0]
+        if head != io[0]:
+            return ("drift", f"ParseOnDemand: composed model (GetOnDemand + Parse of the slice) and implementation differ: model={head[:140]} impl={io[0][:140]}")
         return None
     head, _, rest = mo[0].partition(" spec=")
     spec, _, sl = rest.partition(" slice=")
